@@ -289,7 +289,9 @@ def jobs(tier):
 def reframe_jobs(tier):
     kinds = ["bytes"] if tier == "quick" else ["bytes", "file", "socket"]
     return [{"name": f"reframe-{k}", "h": "reframe", "params": {"kind": k, "P": 1, "R": 4, "rmode": "default", "k0": True},
-             "must_reach": [f"{'block' if k == 'socket' else 'stop'}/1"]} for k in kinds]
+             "must_reach": [f"{'block' if k == 'socket' else 'stop'}/1"]} for k in kinds] + [
+        # the constructed packet behind a record prefix of symbolic length, read from a file in chunks of symbolic size
+        {"name": "reframe-file-sym-prefix", "h": "reframe", "params": {"kind": "file", "P": 1, "R": 4, "rmode": "sym"}, "must_reach": ["stop/1"], "split": 4, "chunk": 20}]
 
 
 def vacuity_jobs():
